@@ -88,6 +88,10 @@ let () =
         let b = Buffer.create 64 in
         for k = 2 to Array.length w - 1 do
           let tok = w.(k) in
+          if tok.[0] = 'P' then begin
+            let tid = int_of_string (String.sub tok 1 (String.length tok - 1)) in
+            Buffer.add_string b (Printf.sprintf " p(%s)" (match result !s (Zio.nat_of_int tid) with Some r -> sz r | None -> "-"))
+          end else
           if tok.[0] = 'Q' then begin
             let tid = int_of_string (String.sub tok 1 (String.length tok - 1)) in
             Buffer.add_string b (Printf.sprintf " q(%s,%s,%s)" (sz !s.st) (sz !s.nworkers) (sz (rank_of !s (Zio.nat_of_int tid))))
